@@ -24,6 +24,26 @@ CTYPE = {'isdigit', 'isspace', 'isalpha', 'isalnum', 'isupper', 'islower', 'ispu
 MAXALT = 24
 
 
+def _facts_nonzero(facts, ck):
+    """Do the facts exclude the value 0 for the quantity keyed ck (c != 0, c == K != 0, K <= c with K > 0, c < K <= 0 ...)?"""
+    def num(k_):
+        m = re.match(r'^n:(-?\d+)$', k_)
+        return int(m.group(1)) if m else None
+    for (op_, a_, b_) in facts:
+        if op_ == '!=' and set((a_, b_)) == set((ck, 'n:0')):
+            return True
+        if op_ == '==' and ck in (a_, b_):
+            v = num(b_ if a_ == ck else a_)
+            if v is not None and v != 0:
+                return True
+        if op_ in ('<=', '<'):
+            if b_ == ck and num(a_) is not None and (num(a_) > 0 or (op_ == '<' and num(a_) >= 0)):
+                return True
+            if a_ == ck and num(b_) is not None and (num(b_) < 0 or (op_ == '<' and num(b_) <= 0)):
+                return True
+    return False
+
+
 def is_cursor_type(t):
     t = (t or '').strip()
     return bool(re.match(r'^const char \*( const)?$', t)) or t == 'const char *const'
@@ -808,6 +828,26 @@ class CursorAnalysis(object):
             la = self._local_id(a)
             vb = self.fold.fold(b)
             outs = self.effects(x, alt)
+            # a character compared with a constant: an outcome that puts it on one side of zero excludes the terminator
+            for (e1, e2, flip) in ((a, b, False), (b, a, True)):
+                v2 = self.fold.fold(e2)
+                if v2 is None or self.fold.fold(e1) is not None:
+                    continue
+                op = x.get('opcode')
+                if flip:
+                    op = {'<': '>', '>': '<', '<=': '>=', '>=': '<='}[op]
+                if not truth:
+                    op = {'<': '>=', '>': '<=', '<=': '>', '>=': '<'}[op]
+                nz_ = (op == '>=' and v2 > 0) or (op == '>' and v2 >= 0) or (op == '<=' and v2 < 0) or (op == '<' and v2 <= 0)
+                if not nz_:
+                    continue
+                res = []
+                for s_ in outs:
+                    ca_ = self.char_of(e1, s_)
+                    r = self.learn(s_, ca_, NN) if ca_ is not None else s_
+                    if r is not None:
+                        res.append(r)
+                return res
             if la is not None and vb is not None:
                 res = []
                 for s_ in outs:
@@ -855,7 +895,7 @@ class CursorAnalysis(object):
             try:
                 F_ = self.ctx.facts(self.f)
                 ck_ = F_.keys.key(call_args(y)[0])
-                nonzero = any(op_ == '!=' and set((a_, b_)) == set((ck_, 'n:0')) for (op_, a_, b_) in F_.cond_facts(y, truth))
+                nonzero = _facts_nonzero(F_.cond_facts(y, truth), ck_)
             except Exception:
                 nonzero = False
             outs = self.effects(call_args(y)[0], alt)
